@@ -4,6 +4,8 @@
 def run(ctx):
     ctx.mc("MC_C10", "MC_C10.cfg")
     cases = [c for c in ctx.gen("Gen_C10", "Gen_C10.cfg") if c["kind"] in ("tr", "octave", "note")]
+    # two-step histories through octave -1: every name in octave 0, down by an interval, then a second transposition
+    cases += [{"kind": "tr2", "n": c["n"], "sh": c["sh"]} for c in cases if c["kind"] == "tr" and c["o"] == 0 and (ctx.tier != "quick" or len(c["sh"]) == 1)]
     if ctx.quick():
         cases = [c for c in cases if c["kind"] != "tr" or 1 <= c["o"] <= 7] 
         cases = [c for c in cases if c["kind"] != "note" or c["o"] in (0, 4)]
